@@ -94,6 +94,7 @@ void harness(void)
 		COVER(nd_tresult < 0);
 		COVER(nd_shm && nd_tresult > 0 && rc < 0);
 #endif
+		POST(!(nd_tresult > 0 && rc == -EAGAIN), "a send that reports EAGAIN has had no effect: the request is never already committed to the transport when EAGAIN is returned");
 		POST(tcalls == 1, "a message of at most the negotiated maximum is not refused for its size: it is handed to the transport exactly once");
 		if (nd_tresult < 0) {
 			POST(rc == nd_tresult, "a message the transport could not queue reports the transport's error");
